@@ -582,6 +582,22 @@ func (w *World) fieldPresent(si *siteInfo, field string) bool {
 	if _, isSlice := f.Type().Underlying().(*types.Slice); isSlice {
 		return a.mayFull
 	}
+	if b, ok := f.Type().Underlying().(*types.Basic); ok && b.Info()&(types.IsBoolean|types.IsString) != 0 {
+		// a flag or a spelling: present unless the literal stores the zero value (or nothing)
+		v := si.val[field]
+		if v == nil {
+			return false
+		}
+		if c, ok := v.(*ssa.Const); ok {
+			if bv, ok := constBool(c); ok {
+				return bv
+			}
+			if sv, ok := constString(c); ok {
+				return sv != ""
+			}
+		}
+		return true
+	}
 	return len(a.types) > 0 || a.top
 }
 
